@@ -200,11 +200,10 @@ pub fn check_summaries(kind: Kind, img: &[u8], w: &Walked) -> Result<(), String>
                     }
                     let padded = 8 + s + (s & 1);
                     eq("RHCT ISA node length vs string length + padding", off + 2, len as u64, padded as u64)?;
-                    // the terminating NUL is the last counted byte, and no NUL occurs before it
-                    let str_bytes = &e[8..8 + s];
-                    let first_nul = str_bytes.iter().position(|b| *b == 0);
-                    if first_nul != Some(s - 1) {
-                        return Err(format!("RHCT ISA node at {}: string length field {} but first NUL at {:?}", off, s, first_nul));
+                    // the terminating NUL is the last counted byte (a string that itself ends in NUL
+                    // bytes just pads the field; interior NULs are outside the domain)
+                    if e[8 + s - 1] != 0 {
+                        return Err(format!("RHCT ISA node at {}: string length field {} but byte {} is not the NUL terminator", off, s, 8 + s - 1));
                     }
                     if e[8 + s..].iter().any(|b| *b != 0) {
                         return Err(format!("RHCT ISA node at {}: non-zero padding", off));
